@@ -1124,7 +1124,7 @@ def gsOk (m : StatsMode) (cx : Ctx) (t : Table) (req : Request) (r : Row) : Bool
     checkAuth cx t req.authUser r
 
 def gsKey (cx : Ctx) (t : Table) (reqCols : List Column) (r : Row) : String :=
-  joinWith sep0 (reqCols.map (fun c => ((mkView cx t r).get c).asString))
+  joinWith sep0 (reqCols.map (fun c => ((mkView cx t r).get c).keyString))
 
 def gsCount (m : StatsMode) (cx : Ctx) (t : Table) (req : Request) (r : Row) (accs : Accs) : Option Accs :=
   match (if m.grouped then optimizeStats req.stats else none) with
